@@ -227,8 +227,8 @@ def run(index, rep, tier):
 
     # ---- R04.8
     with rep.section("R04.8"):
-        rep.rule("R04.8", "what the weighted distances read is right: the split normalisation bit is derived from the tree's own leaf set on every encode (C01 R01.3) and a spliced-out unifurcation's edge length is merged into its child's in all None-ness cases (C08 R08.6), including the basal bifurcation every unrooted encode collapses (C07 R07.4, R07.6) - all of these decide the lengths the distance kernels pair up")
-        nb = borrow(index, rep, "C01", {"R01.3"}, "R04.8") + borrow(index, rep, "C08", {"R08.6"}, "R04.8") + borrow(index, rep, "C07", {"R07.4", "R07.6"}, "R04.8")
+        rep.rule("R04.8", "what the weighted distances read is right: the split normalisation bit is derived from the tree's own leaf set on every encode (C01 R01.3) and a spliced-out unifurcation's edge length is merged into its child's in all None-ness cases (C08 R08.6), including the basal bifurcation every unrooted encode collapses (C07 R07.4, R07.6), the bit of a taxon is stable and unique, and bipartitions are compared and hashed by value symmetrically (C01 R01.1, R01.4, R01.8) - all of these decide the lengths the distance kernels pair up")
+        nb = borrow(index, rep, "C01", {"R01.3"}, "R04.8") + borrow(index, rep, "C08", {"R08.6"}, "R04.8") + borrow(index, rep, "C07", {"R07.4", "R07.6"}, "R04.8") + borrow(index, rep, "C01", {"R01.1", "R01.4", "R01.8"}, "R04.8")
         rep.floor("R04.8", "borrowed obligations", 6, nb)
 
     # ---- R04.6
